@@ -24,7 +24,7 @@ TECHNIQUE += '; def-use, backward liveness and a frame-slot value-preservation a
 
 EXPLANATION += ' RV-RT-STOREORDER, CTOR-INIT, RVV-JIT-VLEN.'
 
-EXPLANATION += ' RV-LOOPLOAD.'
+EXPLANATION += ' RV-LOOPLOAD, RV-DSREAD-LIGHT.'
 CLAIM += (' The load half of the loop executed on terms: r_j ^= quadword j at the first address, f / e lanes converted from the sixteen 32-bit integers at the second address in order, e lanes masked with one and-mask and the or-mask of their lane parity (RV-LOOPLOAD, both ISA variants).')
 
 
@@ -56,6 +56,7 @@ def run(ctx, R):
     rtpreserve.rule_const(ctx, R, 'rv64')
     rvdsread.rule_dsread(ctx, R)
     rvdsread.rule_loopload(ctx, R)
+    rvdsread.rule_dsread_light(ctx, R)
     aeshw.rule_rvv_jit_vlen(ctx, R)
     genreset.rule_ctor_init(ctx, R, 'rv64')
     rtpreserve.rule_store_order(ctx, R, 'rv64')
